@@ -428,6 +428,12 @@ def open_oracle(prop):
             if not impl.startswith("ok rt=1"):
                 return ("seal -> to_string -> parse -> unseal with the library's own randomness did not return the input: " + impl[:80],
                         "%s/%s/own-roundtrip" % (be, t[2]))
+        elif t[0] == "o.fcanon":
+            if impl.startswith("ok ") and "genuine=1" not in impl:
+                return ("a token with a footer of a custom footer type did not round-trip: " + impl[:80], "%s/%s/footer-roundtrip" % (be, t[2]))
+            if "altered_accepted=1" in impl or (impl.startswith("ok ") and "dec=0 val=0" not in impl):
+                return ("a token whose footer bytes were replaced by a different encoding of the same footer value was accepted / decoded "
+                        "(the footer is authenticated as received, not as re-encoded): " + impl[:80], "%s/%s/footer-reencoded" % (be, t[2]))
         elif t[0] == "o.sib":
             if impl != "ok same=1 cross12=1 cross21=1":
                 return ("sibling back ends disagree: " + impl, "v%s/local/siblings" % t[1])
